@@ -8,6 +8,7 @@ use std::alloc::Allocator;
 use std::ops::Range;
 verus! {
 //@include ../shim/order.rs
+//@include ../shim/lane.rs
 //@include ../shim/slices_min.rs
 //@include ../shim/bins_types.rs
 
